@@ -196,9 +196,7 @@ func memHistory(r *rng.R, spec string, flavour int, length int) string {
 		sweepStats(&b, spec, m)
 	}
 	b.WriteString(" | D")
-	if flavour != 6 {
-		b.WriteString(imageOf(spec, m))
-	}
+	b.WriteString(imageOf(spec, m)) // after the statistics sweep: reading the image counts as accesses
 	b.WriteString(" | I " + strings.Join(snapImages, " ; "))
 	return b.String()
 }
@@ -339,9 +337,7 @@ func memExec(spec string, flavour int, ops []string) string {
 		sweepStats(&b, spec, m)
 	}
 	b.WriteString(" | D")
-	if flavour != 6 {
-		b.WriteString(imageOf(spec, m))
-	}
+	b.WriteString(imageOf(spec, m)) // after the statistics sweep: reading the image counts as accesses
 	b.WriteString(" | I " + strings.Join(snapImages, " ; "))
 	return b.String()
 }
